@@ -191,6 +191,31 @@ Section Proofs.
   Qed.
 End Proofs.
 
+(* a returned nonce lies in [1, n-1], for any order, key, hash value and hmac *)
+Lemma k_loop_range hmac : forall fuel n bln osz k v r, k_loop hmac fuel n bln osz k v = Ret r -> 1 <= r < n.
+Proof.
+  induction fuel as [|f IH]; intros n bln osz k v r H; cbn [k_loop] in H; [discriminate|].
+  destruct (gen_t hmac (S osz) osz k v []) as [[v' t']| |]; cbn [bind] in H; try discriminate.
+  destruct ((1 <=? _) && (_ <? n)) eqn:E in H.
+  - inversion H; subst. lia.
+  - eapply IH. exact H.
+Qed.
+
+Lemma gen_k_range hmac hlen fuel n d z k : deterministic_generate_k hmac hlen fuel n d z = Ret k -> 1 <= k < n.
+Proof.
+  unfold deterministic_generate_k. intros H.
+  destruct (to_bytes_be _ d) as [priv| |]; cbn [bind] in H; try discriminate.
+  destruct (to_bytes_be _ _) as [h1| |] in H; cbn [bind] in H; try discriminate.
+  eapply k_loop_range. exact H.
+Qed.
+
+Lemma gen_k_never_raises hmac hlen fuel n d z e : 0 < n -> 0 <= d < n -> 0 <= z < 256 ^ Z.of_nat hlen ->
+  deterministic_generate_k hmac hlen fuel n d z <> Raise e.
+Proof.
+  intros Hn Hd Hz. rewrite (model_is_spec hmac hlen n Hn fuel d z Hd Hz).
+  destruct (rfc6979_k hmac n fuel d (int_to_octets hlen z)); discriminate.
+Qed.
+
 (* ---- injectivity of the HMAC input of steps d and f in (x, reduced hash) ---- *)
 Lemma int_to_octets_inj w a b : 0 <= a < 256 ^ Z.of_nat w -> 0 <= b < 256 ^ Z.of_nat w ->
   int_to_octets w a = int_to_octets w b -> a = b.
